@@ -884,10 +884,11 @@ class TypeDependencyAnalysis(DefaultVisitor):
         type_assignments = {}
         has_decl_node = False
         for n in inferred_nodes:
-            if not type_assignments:
+            if not type_assignments and n.target.get_type() is not None:
                 # Compute how the type variables at declaration point are
                 # instantiated based on the type of passed in the corresponding
-                # argument.
+                # argument. (The type of the argument is unknown, e.g., when
+                # the argument is a bottom constant without a type.)
                 type_assignments = tu.unify_types(n.target.get_type(), t,
                                                   self._bt_factory,
                                                   same_type=False)
